@@ -253,7 +253,7 @@ def check(ctx: Ctx):
                           f"`{norm(n)[:70]}` discards held messages that were not re-injected: the buffers also keep what arrived before start(), so emptying or re-creating "
                           "them anywhere but in a drain loses those messages")
     if n_keep < 3:
-        raise AnalysisError(f"R-FIFO.keep: only {n_keep} removal sites seen on the hold-back buffers (expected >= 3)")
+        ctx.defer(f"R-FIFO.keep: only {n_keep} removal sites seen on the hold-back buffers (expected >= 3)")
 
     # who may touch -----------------------------------------------------------
     n_out = 0
